@@ -391,7 +391,7 @@ def const(node, env=None):
     if isinstance(node, ast.Call) and isinstance(node.func, ast.Name) and not node.keywords:
         fn = node.func.id
         args = _args(node.args, env)
-        table = {'zip': zip, 'iter': iter, 'reversed': reversed, 'isinstance': isinstance,'range': range, 'bytearray': bytearray, 'bytes': bytes, 'len': len, 'int': int, 'tuple': tuple,
+        table = {'enumerate': enumerate, 'zip': zip, 'iter': iter, 'reversed': reversed, 'isinstance': isinstance,'range': range, 'bytearray': bytearray, 'bytes': bytes, 'len': len, 'int': int, 'tuple': tuple,
                  'list': list, 'min': min, 'max': max, 'sum': sum, 'frozenset': frozenset, 'set': set, 'sorted': sorted, 'slice': slice, 'divmod': divmod,
                  'bool': bool, 'pow': pow, 'abs': abs, 'type': type, 'str': str, 'repr': repr}
         if fn in table:
